@@ -435,6 +435,8 @@ def alphabet(N, W, L=2, ids=None, level=2, light=False):
             for t in tasks:
                 A.append(act("ChMove", n=n, seq=[t]))
                 A.append(act("ChMove", n=n, seq=[t], before=t % N + 1, after=t))
+                # both anchors given, neither of them the moved task: refused
+                A.append(act("ChMove", n=n, seq=[t], before=t % N + 1, after=(t + 1) % N + 1))
             for key in (1, 3) if light else (1, 2, 3):
                 for rev in (0, 1):
                     A.append(act("ChSort", n=n, key=key, rev=rev))
